@@ -189,6 +189,13 @@ def make_chain(rng):
             r = rng.choice(recs)
             d.steps.append(("evo1", M.Named(r.name), False))
             d.steps.append(("evo2", M.Named(rng.choice(recs).name), True))
+            # element types that documented edits may widen: in a record field, a vector step and a stream step
+            d.steps.append(("evo3", M.Vec(M.Prim(rng.choice(["int32", "int16", "float32", "uint8"]))), False))
+            d.steps.append(("evo4", M.Prim(rng.choice(["int32", "uint16", "float32"])), True))
+            d.steps.append(("evo5", M.Vec(M.Prim(rng.choice(["int32", "int8"]))), True))
+    for r in recs:
+        if rng.chance(0.6):
+            r.fields.append(("vecfield%d" % rng.randint(1, 99), M.Vec(M.Prim(rng.choice(["int32", "int16", "float32"])))))
     newest = E.with_versions(base, rng.fork("ver"), rng.randint(1, 2), partial=True)
     return newest
 
@@ -215,7 +222,7 @@ def run_modes(model, cm, old_models, proto, rng, stats, viols, ctx, only=None):
             vals_old = sw.gen_values(old_env, ns, old_proto, r, finite=True, items=(0, 4))
             data_old = codec_old.encode_stream(old_proto, ns, old_schemas[proto.name], vals_old, sw.gen_partitions(old_proto, vals_old, r))
             inputs.append(data_old)
-            runs.append({"proto": proto.name, "op": "relay", "in_fmt": "binary", "out_fmt": "binary", "input": len(inputs) - 1, "batch": [r.choice([1, 2, 3])] * nb, "version": "Current"})
+            runs.append({"proto": proto.name, "op": "relay", "in_fmt": "binary", "out_fmt": "binary", "input": len(inputs) - 1, "batch": [r.choice([1, 2, 3, 7])] * nb, "version": "Current"})
             meta.append(("old_to_new", label, vals_old, old_proto, old_env, codec_old, old_schemas[proto.name]))
             # (c) old -> new -> old
             runs.append({"proto": proto.name, "op": "relay", "in_fmt": "binary", "out_fmt": "binary", "input": len(inputs) - 1, "batch": [1] * nb, "version": "same_as_reader"})
